@@ -447,7 +447,7 @@ def _state_stmt(kind, run, i, rng):
         return ("state", run[0])
     if kind == "sdict":
         return ("sdict", run, f"_sd{i}")
-    return ("senum", run, f"_se{i}", rng.random() < 0.3, rng.random() < 0.5)
+    return ("senum", run, f"_se{i}", rng.random() < 0.3, rng.random() < 0.5, rng.random() < 0.3)
 
 
 def _texprs(st):
@@ -710,6 +710,8 @@ def python_source(am, prog, clsname="M"):
                 pre.append(f"class {en}({'IntEnum' if len(st) > 4 and st[4] else 'Enum'}):")
                 for s in st[1]:
                     pre.append(f"    s{s['k']} = {s['value']!r}")
+                if len(st) > 5 and st[5]:      # an enum alias (second name for a value) is not a member: no state
+                    pre.append(f"    alias_of_s{st[1][-1]['k']} = {st[1][-1]['value']!r}")
                 ini = next((f"{en}.s{s['k']}" for s in st[1] if s["initial"]), "None")
                 fins = [f"{en}.s{s['k']}" for s in st[1] if s["final"]]
                 a = [en, f"initial={ini}"]
